@@ -80,6 +80,10 @@ class _ConcatStringSourceContents(ContentsWithCachedPathFromWriteToBase):
     def write_to(self, output: TextIO):
         for part in self._parts:
             part.contents().write_to(output)
+            # A following part may be written directly to the file descriptor
+            # (e.g. the output from an OS process):
+            # must not leave contents in the buffer of the file object.
+            output.flush()
 
     @property
     def tmp_file_space(self) -> DirFileSpace:
